@@ -159,7 +159,7 @@ class HilbertClimateNetwork(ClimateNetwork):
         :arg float threshold: the threshold used to generate the network.
         """
         ClimateNetwork.set_threshold(self, threshold)
-        if self.directed and self._coherence_phase is not None:
+        if self.directed:
             self.adjacency = self.adjacency * (self.phase_shift() > 0)
 
     def set_directed(self, directed):
@@ -236,4 +236,8 @@ class HilbertClimateNetwork(ClimateNetwork):
         :rtype: 2D Numpy array [index, index]
         :return: the average phase shift matrix.
         """
+        if getattr(self, "_coherence_phase", None) is None:
+            #  Removed by clear_cache(): recalculate from the data
+            self._coherence_phase = self._calculate_hilbert_correlation(
+                self.data.anomaly())[1]
         return self._coherence_phase
